@@ -612,6 +612,68 @@ def run_objects(req):
         raise KeyError("tb")
     except KeyError as e:
         objs.append(e.__traceback__)
+    # objects that misbehave when merely looked at: "whatever object it is given"
+    import weakref
+
+    class Plain:
+        pass
+
+    class BadRepr:
+        def __repr__(self):
+            raise ValueError("repr refuses")
+
+    class BadClass:
+        @property
+        def __class__(self):
+            raise RuntimeError("__class__ refuses")
+
+    class BadGetattr:
+        def __getattr__(self, name):
+            raise RuntimeError("no attribute lookups, thanks (%s)" % name)
+
+    class BadEq:
+        def __eq__(self, other):
+            raise RuntimeError("eq refuses")
+
+        def __hash__(self):
+            raise RuntimeError("hash refuses")
+
+    class BadBool:
+        def __bool__(self):
+            raise RuntimeError("bool refuses")
+
+        def __len__(self):
+            raise RuntimeError("len refuses")
+
+    class BadIter:
+        def __iter__(self):
+            raise RuntimeError("iter refuses")
+
+        def __getitem__(self, i):
+            raise RuntimeError("getitem refuses")
+
+    victim = Plain()
+    dead_proxy = weakref.proxy(victim)
+    dead_ref = weakref.ref(victim)
+    live = Plain()
+    hostile = [dead_proxy, dead_ref, weakref.proxy(live), BadRepr(), BadClass(), BadGetattr(), BadEq(), BadBool(), BadIter()]
+    del victim
+    for o in hostile:
+        n += 1
+        try:
+            st = extract(o)
+        except BaseException as ex:
+            obs.append({"kind": "extract_raised", "obj": type(o).__name__, "exc": repr(ex)[:200]})
+            continue
+        try:
+            if type(st) is not Stack or st.frames:
+                obs.append({"kind": "hostile_object", "obj": str(type(o)), "frames": len(st.frames)})
+            str(st)
+            st.format(ascii_only=True, show_hidden_frames=True)
+            st.format_flat()
+            st.as_stdlib_summary(show_contexts=True)
+        except BaseException as ex:
+            obs.append({"kind": "format_raised", "obj": str(type(o)), "exc": repr(ex)[:200]})
     for v in req.get("values", []):
         objs.append(v)
         objs.append(tuple(v) if isinstance(v, list) else v)
